@@ -6,7 +6,7 @@ from pathlib import Path
 
 import numpy as np
 
-FLAT_EXT = ('.dat', '.bin', '.raw')
+FLAT_EXT = ('.dat', '.bin', '.raw', '.mda')
 
 
 def unique_cells(n, nc, dtype, start=0):
